@@ -78,7 +78,7 @@ PV = 'pyvc VC generator and its Python-semantics assumptions (DESIGN 3, 9); z3; 
 PROVED = {
  'C01': ('Simulation._initialize (symbolic number of wires, 3 loop invariants: register_value_map > reset_value > default_value) and Simulation.step (input validation; phase order with loop invariants over ghost state) are also under contract', None),
  'C05': ('P: translation validation for ALL widths of the per-net Verilog emitters - the assign statement printed by the real loop body of _to_verilog_combinational (executed from the real source on a model net with symbolic widths) is parsed back and read under the IEEE 1364-2001 expression width rules, and equals the documented value of the primitive (w ~ & | ^ + - * < > = x, concat of 1..3 pieces, select shapes) for every operand value, discharged by z3; then ', 'per-net emitters proved for all widths (P); '),
- 'C15': ('P: contracts on Simulation.step (input validation: PyrtlError iff a value is outside [0, 2**bitwidth), a non-Input is driven or an Input is missing; the trace receives exactly the final value map), SimulationTrace.add_step / add_fast_step (any number of traced names, loop invariant over ghost length/content arrays: every list grows by exactly one entry = the value of its wire, earlier entries unchanged, PyrtlError iff nothing is traced), Simulation.inspect, and the lemma over those contracts inspect(n) == trace[n][-1] / len grows by one per step, discharged by z3; then ', 'Simulation observation channel proved (P); other simulators, printers, step_multiple, assertions bounded (B); '),
+ 'C15': ('P: contracts on Simulation.step (input validation: PyrtlError iff a value is outside [0, 2**bitwidth), a non-Input is driven or an Input is missing; the trace receives exactly the final value map), FastSimulation.step (PyrtlError iff a provided value is negative or >= 2**bitwidth, by name or by wire; otherwise the compiled step function and the trace receive exactly the provided values), SimulationTrace.add_step / add_fast_step (any number of traced names, loop invariant over ghost length/content arrays: every list grows by exactly one entry = the value of its wire, earlier entries unchanged, PyrtlError iff nothing is traced), Simulation.inspect, and the lemma over those contracts inspect(n) == trace[n][-1] / len grows by one per step, discharged by z3; then ', 'Simulation observation channel proved (P); other simulators, printers, step_multiple, assertions bounded (B); '),
  'C17': ('P: contract on TimingAnalysis._generate_timing_map with a caller-supplied integer delay table over a symbolic well-formed netlist of any size: sources are timed 0 and every timed net satisfies T[dest] == max(T[arg]) + delay (the longest-path recurrence; loop invariant over ghost netlist functions, `max` of a generator over a symbolic argument list), discharged by z3; then ', 'timing-map recurrence proved for integer tables (P); float default table, critical paths, paths, fanout bounded (B); '),
  'C02': ('P: translation validation for ALL widths of the FastSimulation per-op expression templates (real simple_func templates evaluated from source, emitted text parsed back) with the real _no_mask_bitwidth mask-elision rule, discharged by z3; PB: translation validation of every emitted C op of CompiledSimulation at limb-crossing widths (elab/cemit); multi-limb multiply on limb-pattern stimuli; then ',
          'FastSimulation per-op emission proved for all widths/values (P); C emitters per width instance (PB); whole programs bounded (B)'),
